@@ -117,10 +117,27 @@ def tight_pairs(ctx, n):
         yield case, cfg
 
 
+def mixed_name_pairs(ctx, n):
+    """tie-rich elections whose projects carry names of mixed kinds (numeric, zero-padded, alphanumeric): ties that the shipped
+    non-lexicographic tie-breaking rules leave to the order on projects"""
+    from .C08 import tie_rich_election
+
+    rng = ctx.rng
+    for _ in range(n):
+        case = core.with_mixed_names(rng, tie_rich_election(rng))
+        cfg = rulegen.gen_rule_cfg(rng, case, rules=("greedy", "mes", "phragmen"), allow_refuse=False)
+        if rng.random() < 0.8:
+            cfg["tie"] = rng.choice(["min_cost", "max_cost"] + (["app_score"] if case.btype == "app" else []))
+        cfg["res"] = True if len(case.projects) > 5 else cfg["res"]
+        ctx.count("stream", "mixed-kind project names")
+        yield case, cfg
+
+
 def all_pairs(ctx, n, n_exact):
     yield from pairs(ctx, n)
     yield from exact_pairs(ctx, n_exact)
     yield from tight_pairs(ctx, (n_exact * 3) // 4)
+    yield from mixed_name_pairs(ctx, n_exact // 2)  # round 6 (drawn last)
 
 
 def run(ctx, n=None, compare=True, hashseeds=None, n_exact=None):
